@@ -622,11 +622,11 @@ def check(case):
         zi = [int(b) for b in T.buses if T.node[b] not in T.has_inj]
     kw = dict(algorithm=alg, init=init, tolerance=opt["tolerance"], maximum_iterations=MAX_IT, zero_injection=zi)
 
-    def run_est(n):
+    def run_est(n, tol=None):
         """-> ("ok", None) | ("skip", reason) | ("fail", (signature, detail))"""
         try:
             with silence():
-                r = estimate(n, **kw)
+                r = estimate(n, **(kw if tol is None else dict(kw, tolerance=tol)))
         except UserWarning as e:
             msg = str(e)
             if "no bus with zero injections" in msg:
@@ -658,7 +658,36 @@ def check(case):
     if st_ == "fail":
         res.fail(what[0], opt=opt, n_meas=len(rows), **what[1])
         return res
+    def borderline(diffs):
+        """every deviation is within 100x of its tolerance (DESIGN.md sec. 5 rule 5: re-evaluate with a tighter solver tolerance)"""
+        for kind, d in diffs:
+            if kind == "vm":
+                ok = d["max_dev_pu"] <= 100 * TOL_VM
+            elif kind == "va":
+                ok = d["max_dev_degree"] <= 100 * TOL_VA
+            elif kind.startswith("flow/"):
+                ok = abs(d["ref"] - d["est"]) <= 100 * d["tol"]
+            else:
+                ok = False
+            if not ok:
+                return False
+        return True
+
+    def tight(rows_, reorder=None):
+        """same measurements, estimator iterated to a state change of 1e-9 -> differences to the PF tables (None: no result)"""
+        n = copy.deepcopy(base)
+        with silence():
+            write_measurements(pp, n, rows_, sab)
+        if reorder is not None:
+            n.measurement = n.measurement.loc[reorder]
+        st2, _ = run_est(n, tol=1e-9)
+        return compare_state(n, ref_bus, ref_tabs, sn, "tight") if st2 == "ok" else None
+
     diffs = compare_state(net, ref_bus, ref_tabs, sn, "truth")
+    if diffs and borderline(diffs):
+        res.label("re-evaluated-at-tight-tolerance")
+        d2 = tight(rows)
+        diffs = d2 if d2 is not None else []      # no convergence to 1e-9: numerical floor of this problem, not decidable
     if diffs:
         kind = "voltage" if diffs[0][0] in ("vm", "va") else diffs[0][0]
         res.fail(sig("wrong-estimate", "truth/%s/%s" % (kind, alg)), opt=opt, n_meas=len(rows), diffs=diffs[:4])
@@ -674,6 +703,7 @@ def check(case):
     for _ in range(meta["ndup"]):
         rows2.append(dict(rows2[rnd.randrange(len(rows))]))
     net2 = copy.deepcopy(base)
+    order = None
     if meta["mode"] == "recreate":
         rnd.shuffle(rows2)
         with silence():
@@ -692,6 +722,10 @@ def check(case):
         res.fail(s_, opt=opt, meta=meta, variant=True, **what[1])
     elif st_ == "ok":
         diffs = compare_state(net2, est_bus, est_tabs, sn, "meta")
+        if diffs and borderline(diffs):
+            res.label("re-evaluated-at-tight-tolerance")
+            d2 = tight(rows2, order)
+            diffs = d2 if d2 is not None else []
         if diffs:
             kind = "voltage" if diffs[0][0] in ("vm", "va") else diffs[0][0]
             res.fail(sig("metamorphic", "metamorphic/%s/%s" % (kind, meta["mode"])), opt=opt, meta=meta, diffs=diffs[:4])
